@@ -25,6 +25,8 @@ CATS = {
     7: dict(name="own_swap_throwing_move", tc=False, decl=None, nmc=False, nma=False, tdes=False, nsw=True),
     # its own noexcept swap, nothrow move constructor, move assignment that may throw
     8: dict(name="own_swap_throwing_move_assign", tc=False, decl=None, nmc=True, nma=False, tdes=False, nsw=True),
+    # its own swap that may throw, although the move operations are noexcept
+    9: dict(name="own_throwing_swap_nothrow_moves", tc=False, decl=None, nmc=True, nma=True, tdes=False, nsw=False),
 }
 
 PRELUDE = r'''
@@ -77,6 +79,11 @@ template <int SZ, int AL> struct alignas(AL) El<SZ, AL, 8> {
   char b[SZ];
   El(); El(const El &); El(El &&) noexcept; El &operator=(const El &); El &operator=(El &&) noexcept(false); ~El();
   friend void swap(El &, El &) noexcept {}
+};
+template <int SZ, int AL> struct alignas(AL) El<SZ, AL, 9> {
+  char b[SZ];
+  El(); El(const El &); El(El &&) noexcept; El &operator=(const El &); El &operator=(El &&) noexcept; ~El();
+  friend void swap(El &, El &) noexcept(false) {}
 };
 struct FixedNonTR { FixedNonTR(); FixedNonTR(const FixedNonTR &); FixedNonTR(FixedNonTR &&) noexcept; ~FixedNonTR(); int x; };
 struct StatefulNonTrivialCmp {  // a comparator that is not trivially relocatable
